@@ -510,6 +510,9 @@ pub fn apply(w: &World, st: &mut St, op: Op) -> bool {
             let r = match i {
                 // a withdrawal of nothing still needs the account's signature
                 4 => st.wds.add(&reward_key(3), &bn(0)),
+                // nothing withdrawn from a native-script account either (the two-key script): the script and
+                // the keys it names are needed all the same
+                6 => st.wds.add_with_native_script(&RewardAddress::new(1, &Credential::from_scripthash(&w.native[1].hash())), &bn(0), &NativeScriptSource::new(&w.native[1])),
                 // a second Plutus-script account (script 0)
                 5 => st.wds.add_with_plutus_witness(&RewardAddress::new(1, &Credential::from_scripthash(&w.plutus[0].hash())), &bn(1_700_000), &plutus_witness(w, 0, 0, RedeemerTag::new_reward(), 300 + i as u64, None)),
                 0 => st.wds.add(&reward_key(0), &bn(WD_AMOUNT[0])),
@@ -1120,7 +1123,7 @@ pub fn ops_for(prop: &str) -> Vec<Op> {
             Op::Fee(0), Op::Fee(1), Op::Fee(2), Op::Fee(3), Op::Coll(1), Op::Meta, Op::RefIn(1), Op::RefIn(3),
             Op::WdAgain(0), Op::WdAgain(2), Op::Wd(4), Op::InAgain(0), Op::In(7, 0), Op::In(7, 1), Op::In(8, 0), Op::In(17, 0),
             Op::Ttl, Op::Treasury, Op::MintAndOutput, Op::MetaJson, Op::ExtraDatum(1), Op::ExtraDatum(0), Op::ExtraDatum(4), Op::MetaEmpty(0), Op::MetaEmpty(1),
-            Op::In(18, 0), Op::Mint(6), Op::Mint(5), Op::In(19, 0),
+            Op::In(18, 0), Op::Mint(6), Op::Mint(5), Op::In(19, 0), Op::Wd(6),
         ],
         // C16 looks at ordering and repetition in the built transaction: items that bring scripts,
         // datums, reference inputs, signers - one or two per source
@@ -1132,7 +1135,7 @@ pub fn ops_for(prop: &str) -> Vec<Op> {
         "C18" => vec![
             Op::In(0, 0), Op::In(2, 0), Op::In(1, 0), Op::In(5, 0), Op::In(13, 0), Op::In(12, 0), Op::In(6, 0), Op::In(6, 1), Op::In(10, 0), Op::In(10, 2), Op::In(16, 3), Op::In(16, 1), Op::In(7, 0), Op::In(7, 1), Op::In(7, 4), Op::In(11, 0), Op::In(8, 0), Op::In(8, 2), Op::In(14, 0), Op::In(14, 4), Op::In(17, 0), Op::In(17, 1),
             Op::Out(0), Op::Coll(1), Op::Coll(0), Op::Cert(5), Op::Cert(7), Op::Cert(8), Op::Cert(6), Op::Cert(13), Op::Cert(25), Op::Cert(27),
-            Op::Wd(0), Op::Wd(1), Op::Wd(3), Op::Vote(0), Op::Vote(1), Op::Vote(2), Op::Vote(3), Op::Vote(4),
+            Op::Wd(0), Op::Wd(1), Op::Wd(3), Op::Wd(4), Op::Wd(6), Op::Vote(0), Op::Vote(1), Op::Vote(2), Op::Vote(3), Op::Vote(4),
             Op::Mint(0), Op::Mint(2), Op::ReqSigner(3), Op::ReqSigner(0), Op::RefIn(0), Op::RefIn(1), Op::RefIn(2), Op::ExtraDatum(0), Op::ExtraDatum(1), Op::ExtraDatum(3), Op::Meta,
         ],
         "C09" | "C10" => vec![
@@ -1158,7 +1161,7 @@ pub fn core_ops_for(prop: &str) -> Vec<Op> {
         ],
         "C18" => vec![
             Op::In(0, 0), Op::In(2, 0), Op::In(5, 0), Op::In(13, 0), Op::In(12, 0), Op::In(6, 0), Op::In(6, 1), Op::In(10, 2), Op::In(16, 3), Op::In(7, 0), Op::In(7, 1), Op::In(7, 4), Op::In(11, 0), Op::In(8, 2), Op::In(14, 0), Op::In(17, 0),
-            Op::Coll(1), Op::Coll(0), Op::Cert(5), Op::Cert(7), Op::Cert(25), Op::Cert(27), Op::Wd(0), Op::Wd(1), Op::Wd(3), Op::Vote(2), Op::Vote(3), Op::Vote(4),
+            Op::Coll(1), Op::Coll(0), Op::Cert(5), Op::Cert(7), Op::Cert(25), Op::Cert(27), Op::Wd(0), Op::Wd(1), Op::Wd(3), Op::Wd(4), Op::Wd(6), Op::Vote(2), Op::Vote(3), Op::Vote(4),
             Op::Mint(0), Op::Mint(2), Op::ReqSigner(3), Op::ReqSigner(0), Op::RefIn(1), Op::RefIn(2), Op::ExtraDatum(0), Op::ExtraDatum(1),
         ],
         "C09" | "C10" => vec![
